@@ -68,6 +68,7 @@ type Config struct {
 	Tokens                            []string
 	PreparedCache                     proxycore.PreparedCache
 	PCT                               int   // >0: priority-based task choice with that many priority change points (PCT, Burckhardt et al. 2010)
+	AuthUser, AuthPass                string // if set, the backend nodes demand password authentication and the proxy is configured with these credentials
 	MaxStreams                        int16 // tuning knob: stream ids per backend connection (0 = the shipped 2048)
 	MaxMessages                       int   // tuning knob: length of a connection's write queue (0 = the shipped 1024)
 	TweakProxy                        func(*proxy.Config)
@@ -226,7 +227,7 @@ func (w *World) AddNode(inCluster bool) *Node {
 	hid[8] = (hid[8] & 0x3f) | 0x80
 	n := &Node{w: w, Name: fmt.Sprintf("n%d", i), IP: ip, Addr: net.JoinHostPort(ip.String(), "9042"), DC: "dc1",
 		HostID: hid, Up: true, InCluster: inCluster, MaxVersion: w.Cfg.BackendMax, DSE: w.Cfg.DSE,
-		Prepared: map[string]string{}}
+		Prepared: map[string]string{}, AuthUser: w.Cfg.AuthUser, AuthPass: w.Cfg.AuthPass}
 	w.Nodes = append(w.Nodes, n)
 	return n
 }
@@ -471,6 +472,9 @@ func (w *World) StartProxy(bind string, contact []string, tweak func(*proxy.Conf
 		Peers:             w.Cfg.Peers,
 		Tokens:            w.Cfg.Tokens,
 		PreparedCache:     w.Cfg.PreparedCache,
+	}
+	if w.Cfg.AuthUser != "" {
+		cfg.Auth = proxycore.NewPasswordAuth(w.Cfg.AuthUser, w.Cfg.AuthPass)
 	}
 	if w.Cfg.TweakProxy != nil {
 		w.Cfg.TweakProxy(&cfg)
